@@ -56,7 +56,7 @@ def main(argv):
     if a.replay:
         rp = json.load(open(a.replay))
         lines = rp.get("cases", [])
-        impl = vf.run_impl(lines, shards=1)
+        impl = prop.run_impl(lines) if hasattr(prop, "run_impl") else vf.run_impl(lines, shards=1)
         model = vf.run_model(lines)
         if hasattr(prop, "post"):
             impl, model = prop.post(lines, impl, model)
@@ -79,7 +79,7 @@ def main(argv):
         corpus += [l.rstrip("\n") for l in open(f) if l.strip() and not l.startswith("#")]
     gen = prop.cases(tier, rng, budget)
     lines = corpus + gen
-    impl = vf.run_impl(lines)
+    impl = prop.run_impl(lines) if hasattr(prop, "run_impl") else vf.run_impl(lines)
     model = vf.run_model(lines)
     if hasattr(prop, "post"):
         impl, model = prop.post(lines, impl, model)
